@@ -526,6 +526,22 @@ def order_case():
     got = [x.body[0] for x in b.drain() if getattr(x, 'member', None) == 'S']
     if got != sent:
         return 'messages from one sender to one destination arrived as %r' % got
+    # the same when the sender pipelines: several messages arrive in ONE read, or cut into reads at arbitrary places
+    for how, cuts in (('one read', []), ('two reads cut inside the third message', [None]), ('reads of 50 bytes', 50)):
+        raws = [message.SignalMessage('/o', 'P', 'org.e.I', destination=b.name, signature='u', body=[100 + i]).rawMessage for i in range(7)]
+        data = b''.join(raws)
+        if cuts == []:
+            pieces = [data]
+        elif cuts == [None]:
+            k = len(raws[0]) + len(raws[1]) + 20
+            pieces = [data[:k], data[k:]]
+        else:
+            pieces = [data[i:i + cuts] for i in range(0, len(data), cuts)]
+        for piece in pieces:
+            a.proto.dataReceived(piece)
+        got = [x.body[0] for x in b.drain() if getattr(x, 'member', None) == 'P']
+        if got != [100 + i for i in range(7)]:
+            return 'seven messages from one sender to one destination sent in %s arrived as %r' % (how, got)
     return None
 
 
@@ -624,7 +640,7 @@ def forged_wellknown_sender_case():
     for p in (a, b, c):
         p.drain()
     for who in (a, c):
-        for forged in (N, b.name, 'org.verif.Unrelated'):
+        for forged in (N, b.name, 'org.verif.Unrelated', who.name):          # the last: a sender field that happens to be TRUE
             m = message.SignalMessage('/o', 'S', 'org.e.I', destination=b.name, signature='s', body=['x'])
             m.sender = forged
             m._marshal(False)
